@@ -8,12 +8,12 @@ def sortP (l : List (String × String)) : List (String × String) :=
 
 /-- flat map = exactly the supplied messages, as a multiset of (flat key, message). -/
 def flatFaithful (warn : Bool) (tree : VE) (implFlat : SMap) : Bool :=
-  sortP (pairs implFlat) == sortP (supplied warn "" tree)
+  (pairs implFlat).isPerm (supplied warn "" tree)
 
 /-- `Error()` renders every supplied message exactly once. -/
 def errorOnce (tree : VE) (implLines : List String) : Bool :=
-  sortS implLines == sortS (((supplied false "" tree).map (fun p => "ERROR:" ++ p.2)) ++
-                            ((supplied true "" tree).map (fun p => "WARNING:" ++ p.2)))
+  implLines.isPerm (((supplied false "" tree).map (fun p => "ERROR:" ++ p.2)) ++
+                    ((supplied true "" tree).map (fun p => "WARNING:" ++ p.2)))
 
 /-- multiset inclusion. -/
 def subMultiset (a b : List (String × String)) : Bool :=
